@@ -78,7 +78,7 @@ def cav_ptr_inst(pointee, cpointee, guest_bytes, tier):
     stub = vstub('%s *arg' % cpointee, fresh('arg', 'sizeof(%s)' % cpointee))
     return Inst('c09_copy_and_verify_ptr_%s' % pointee, 'tainted<%s*, vsbx>& p, VPtr%s verifier' % (pointee, 'I' if pointee == 'int' else 'L'), 'p.copy_and_verify(verifier);', cl, h,
                 leaves=['dynamic_check'], prop=PROP, root_name='copy_and_verify', tier=tier, pre=GH, pre_defines=OBJVIEW, post_protos=stub,
-                opts={'param_fn_stubs': {'verifier': 'verifier_stub'}, 'amp_star': True, 'volatile_read_check': True}, extra_replace=['verifier_stub'], nondet_volatile=True,
+                opts={'param_fn_stubs': {'*': 'verifier_stub'}, 'amp_star': True, 'volatile_read_check': True}, extra_replace=['verifier_stub'], nondet_volatile=True,
                 replay={'kind': 'cav_content', 'ctype': pointee, 'gtype': {'int': 'int32_t', 'long': 'int32_t'}[pointee], 'no_inputs': True},
                 note='pointee occupies %d guest bytes at the end of a %s-typed read' % (guest_bytes, pointee))
 
@@ -97,7 +97,7 @@ def cav_ptr_volatile_inst(tier):
     stub = vstub('int *arg', fresh('arg', 'sizeof(int)'))
     return Inst('c09_copy_and_verify_ptr_int_volatile_receiver', 'tainted_volatile<int*, vsbx>& p, VPtrI verifier', 'p.copy_and_verify(verifier);', cl, h,
                 leaves=['dynamic_check', 'vsbx.impl_get_unsandboxed_pointer_no_ctx', 'find_sandbox_from_example'], prop=PROP, root_name='copy_and_verify', tier=tier,
-                pre=GH, pre_defines=OBJVIEW, post_protos=stub, opts={'param_fn_stubs': {'verifier': 'verifier_stub'}, 'amp_star': True, 'volatile_read_check': True},
+                pre=GH, pre_defines=OBJVIEW, post_protos=stub, opts={'param_fn_stubs': {'*': 'verifier_stub'}, 'amp_star': True, 'volatile_read_check': True},
                 extra_replace=['verifier_stub'], nondet_volatile=True,
                 root_pick=lambda tu, fn: find_func(tu, 'copy_and_verify', None, lambda f, rn: 'VPtrI' in f.get('mangledName', '') and '16tainted_volatile' in f.get('mangledName', '').split('15copy_and_verify')[0]),
                 replay={'kind': 'cav_ptr_refetch', 'no_inputs': True},
@@ -111,16 +111,16 @@ def range_inst(tier):
           ('sandbox_memory_is_one_object', '__CPROVER_requires(__CPROVER_r_ok(g_sbx_mem, V_SIZE[0]) && (unsigned long)g_sbx_mem == V_BASE[0] && V_SIZE[1] == 0 && V_SIZE[0] <= 4096)'),
           ('verifier_runs_once_and_its_result_is_returned', '__CPROVER_ensures(g_vcalls == 1 && $ret == g_vret)'),
           ('frame', '__CPROVER_assigns(g_vcalls, g_new_bytes, g_news, g_new_ptr, g_checked_bytes, g_checked_start)')]
-    lc = ('__CPROVER_assigns(i, __CPROVER_object_whole(target))\n'
-          '__CPROVER_loop_invariant(i <= $0)\n'
-          '__CPROVER_decreases($0 - i)')
+    lc = ('__CPROVER_assigns($LV, __CPROVER_object_whole(g_new_ptr))\n'
+          '__CPROVER_loop_invariant($LV <= $0)\n'
+          '__CPROVER_decreases($0 - $LV)')
     h = MEM + ('  struct %s p; unsigned long in_off; _Bool in_null; __CPROVER_assume(in_off < in_size);\n'
                '  p.data = in_null ? (int *)0 : (int *)(mem + in_off);\n  struct S_VArrI vf; unsigned long in_count;\n  int r = $ROOT((void *)&p, vf, in_count);\n' % TT)
     stub = vstub('int *arg', fresh('arg', 'g_count * sizeof(int)'))
     return Inst('c09_copy_and_verify_range_int', 'tainted<int*, vsbx>& p, VArrI verifier, size_t n', 'p.copy_and_verify_range(verifier, n);', cl,
                 h.replace('unsigned long in_count;', 'unsigned long in_count; g_count = in_count;'),
                 leaves=['dynamic_check', CHECK_RANGE, 'vsbx.impl_is_in_same_sandbox'], prop=PROP, root_name='copy_and_verify_range', tier=tier,
-                pre=GH + ' unsigned long g_count;\n', pre_defines=OBJVIEW, post_protos=stub, opts={'param_fn_stubs': {'verifier': 'verifier_stub'}, 'amp_star': True, 'volatile_read_check': True},
+                pre=GH + ' unsigned long g_count;\n', pre_defines=OBJVIEW, post_protos=stub, opts={'param_fn_stubs': {'*': 'verifier_stub'}, 'amp_star': True, 'volatile_read_check': True},
                 extra_replace=['verifier_stub'], object_bits=12, nondet_volatile=True, loop_contracts={('copy_and_verify_range_helper', 0): lc}, timeout=600,
                 note='element copy loop by loop contract; every element read is an adversarial (nondeterministic) read; the buffer handed to the verifier is the object allocated with count elements')
 
@@ -153,7 +153,7 @@ def string_inst(kind, recv, tier):
           ('frame', '__CPROVER_assigns(g_vcalls, g_new_bytes, g_news, g_new_ptr, g_checked_bytes, g_checked_start, g_strlens)')]
     h = MEM + recv_decl + '  struct S_%s vf; unsigned long in_strlen; g_strlen_ret = in_strlen;\n' % V
     h += '  int r = $ROOT((void *)%s, vf);\n' % ('&p' if recv == 'tainted' else 'pp')
-    lcs = {('copy_and_verify_range_helper', 0): '__CPROVER_assigns(i, __CPROVER_object_whole(target))\n__CPROVER_loop_invariant(i <= $0)\n__CPROVER_decreases($0 - i)'}
+    lcs = {('copy_and_verify_range_helper', 0): '__CPROVER_assigns($LV, __CPROVER_object_whole(g_new_ptr))\n__CPROVER_loop_invariant($LV <= $0)\n__CPROVER_decreases($0 - $LV)'}
     if kind == 'uptr':
         # buffer handed over: allocated by this call with exactly strlen+1 bytes == the range-checked length, NUL-terminated inside it
         req = ('(arg == 0 || ((void *)arg == g_new_ptr && g_news >= 1 && !__CPROVER_same_object(arg, g_sbx_mem) && g_new_bytes == g_strlen_ret + 1 && '
@@ -174,7 +174,7 @@ def string_inst(kind, recv, tier):
                 '__CPROVER_ensures(__CPROVER_return_value.src == s && (s[0] == 0 ? __CPROVER_return_value.len == 0 : __CPROVER_return_value.len + 1 <= g_new_bytes))\n__CPROVER_assigns();\n' + stub)
         extra = ['verifier_stub', 'vstd_strlen', 'vstd_string_from', 'vstd_string_cstr']
     return Inst('c09_copy_and_verify_string_%s_%s' % (kind, recv), params, 'p.copy_and_verify_string(verifier);', cl, h, leaves=leaves, prop=PROP,
-                root_name='copy_and_verify_string', tier=tier, pre=GH, pre_defines=OBJVIEW, post_protos=post, opts={'param_fn_stubs': {'verifier': 'verifier_stub'}, 'amp_star': True, 'volatile_read_check': True},
+                root_name='copy_and_verify_string', tier=tier, pre=GH, pre_defines=OBJVIEW, post_protos=post, opts={'param_fn_stubs': {'*': 'verifier_stub'}, 'amp_star': True, 'volatile_read_check': True},
                 extra_replace=extra, object_bits=12, nondet_volatile=True, loop_contracts=lcs, timeout=600,
                 root_pick=lambda tu, fn, V=V: find_func(tu, 'copy_and_verify_string', None, lambda f, rn: V in f.get('mangledName', '') and (('16tainted_volatile' in f.get('mangledName', '').split('22copy_and_verify_string')[0]) == (recv == 'tainted_volatile'))),
                 replay={'kind': 'cav_string', 'verifier': kind, 'recv': recv, 'no_inputs': True},
@@ -203,7 +203,7 @@ def content_ptr_inst(pointee, tier):
     h = h.replace('  struct S_VC_', '  g_null_src = in_null;\n  struct S_VC_')
     return Inst('c09_content_ptr_%s' % tag, 'tainted<%s*, vsbx>& p, VC_%s verifier' % (pointee, tag), 'p.copy_and_verify(verifier);', cl, h,
                 leaves=['dynamic_check'], prop=PROP, root_name='copy_and_verify', tier=tier, pre=GH + ' void *g_src; _Bool g_null_src;\n', pre_defines=OBJVIEW, post_protos=stub,
-                opts={'param_fn_stubs': {'verifier': 'verifier_stub'}, 'amp_star': True, 'volatile_read_check': True}, extra_replace=['verifier_stub'],
+                opts={'param_fn_stubs': {'*': 'verifier_stub'}, 'amp_star': True, 'volatile_read_check': True}, extra_replace=['verifier_stub'],
                 replay={'kind': 'cav_content', 'ctype': pointee, 'gtype': GTYPE[pointee], 'no_inputs': True},
                 note='pointee %s occupies %d guest bytes; every byte position in sandbox memory including the last %d bytes' % (pointee, gb, gb))
 
@@ -218,10 +218,10 @@ def content_range_inst(el, tier):
           ('witness', '__CPROVER_requires(g_w < g_count)'),
           ('verifier_runs_once_and_its_result_is_returned', '__CPROVER_ensures(g_vcalls == 1 && $ret == g_vret)'),
           ('frame', '__CPROVER_assigns(g_vcalls, g_new_bytes, g_news, g_new_ptr, g_checked_bytes, g_checked_start)')]
-    lc = ('__CPROVER_assigns(i, __CPROVER_object_whole(target))\n'
-          '__CPROVER_loop_invariant(i <= $0)\n'
-          '__CPROVER_loop_invariant(g_w < i ==> MI(target[g_w]) == MI(((const %s *)g_src)[g_w]))\n'
-          '__CPROVER_decreases($0 - i)' % gty)
+    lc = ('__CPROVER_assigns($LV, __CPROVER_object_whole(g_new_ptr))\n'
+          '__CPROVER_loop_invariant($LV <= $0)\n'
+          '__CPROVER_loop_invariant(g_w < $LV ==> MI(((const %s *)g_new_ptr)[g_w]) == MI(((const %s *)g_src)[g_w]))\n'
+          '__CPROVER_decreases($0 - $LV)' % (cty, gty))
     h = MEM + ('  struct %s p; unsigned long in_off; _Bool in_null; __CPROVER_assume(in_off < in_size);\n'
                '  g_src = mem + in_off; p.data = in_null ? (%s *)0 : (%s *)(mem + in_off);\n  struct S_VR_%s vf; unsigned long in_count; g_count = in_count; unsigned long in_w; __CPROVER_assume(in_w < in_count); g_w = in_w;\n'
                '  int r = $ROOT((void *)&p, vf, in_count);\n' % (TT, cty, cty, tag))
@@ -230,7 +230,7 @@ def content_range_inst(el, tier):
     return Inst('c09_content_range_%s' % tag, 'tainted<%s*, vsbx>& p, VR_%s verifier, size_t n' % (el, tag), 'p.copy_and_verify_range(verifier, n);', cl, h,
                 leaves=['dynamic_check', CHECK_RANGE, 'vsbx.impl_is_in_same_sandbox'], prop=PROP, root_name='copy_and_verify_range', tier=tier,
                 pre=GH + ' unsigned long g_count; unsigned long g_w; void *g_src;\n', pre_defines=OBJVIEW, post_protos=stub,
-                opts={'param_fn_stubs': {'verifier': 'verifier_stub'}, 'amp_star': True, 'volatile_read_check': True}, extra_replace=['verifier_stub'], object_bits=12,
+                opts={'param_fn_stubs': {'*': 'verifier_stub'}, 'amp_star': True, 'volatile_read_check': True}, extra_replace=['verifier_stub'], object_bits=12,
                 loop_contracts={('copy_and_verify_range_helper', 0): lc}, timeout=900, replay={'kind': 'cav_content', 'ctype': el, 'gtype': GTYPE[el], 'range': True, 'no_inputs': True},
                 note='element g_w is an arbitrary witness index: the loop invariant carries "every copied element equals the guest decoding of its source element"')
 
